@@ -13,7 +13,7 @@ import random
 import apidoc
 import c04
 import rel
-from common import Check, harness, seed
+from common import Check, b64, harness, seed
 
 FEATS = '{"url","method","pathdecl","methoddecl","type"}'
 
@@ -50,6 +50,10 @@ def reject_variants(doc):
             d3 = copy.deepcopy(d0)
             d3[i]["extra_first"] = [raw("Path", "Path", "{", '  "%s": {' % par[0], '    "deep": 1', "  }", "}")]
             res.append(("nested_object", d3))
+            if len(par) >= 1:
+                d3b = copy.deepcopy(d0)
+                d3b[i]["extra_first"] = [raw("Path", "Path", "{", '  "%s": {' % par[0], '    "deep": 1', "  },", '  "zarr": [1, 2],', '  "zobj": {', '    "x": 1', "  }", "}")]
+                res.append(("nested_objects_and_arrays", d3b))
             d4 = copy.deepcopy(d0)
             d4[i]["extra_first"] = [raw("Path", "Path", "[", "  1", "]")]
             res.append(("array_body", d4))
@@ -222,6 +226,13 @@ def main(tier):
         cases.append(rel.case("sh%d" % k, text))
         casecases["sh%d" % k] = (text, "http GET /zm/{zy}", ["zy"], "http GET /zm/{zy}/{zz}", ["zy", "zz"])
         casecases["sh%db" % k] = (text, "http PUT /zm/{zy}/{zz}/more", ["zy", "zz"], "http GET /zm/{zy}", ["zy"])
+    # one file with a method and its Path directive included under two (three) URL blocks: each inclusion binds the
+    # parameter of ITS path
+    item = '  GET\n    Path\n    {\n      "id": 1\n    }\n    200 any\n'
+    for k, urls in enumerate([["zcats", "zdogs"], ["zcats", "zdogs", "zowls"]]):
+        main_t = "JSIGHT 0.3\n" + "".join("URL /%s/{id}\nINCLUDE parts/item.jst\n" % u for u in urls)
+        cases.append({"id": "tw%d" % k, "files": {"main.jst": b64(main_t), "parts/item.jst": b64(item)}, "root": "main.jst"})
+        casecases["tw%d" % k] = (main_t + "--- parts/item.jst\n" + item, "http GET /%s/{id}" % urls[0], ["id"], "http GET /%s/{id}" % urls[-1], ["id"])
     obs = harness("run", cases)
     for cid, (text, ia, va, ib, vb) in casecases.items():
         o = obs[cid.rstrip("b")]
